@@ -443,12 +443,85 @@ func nontrivial(a []Val) (bool, int, bool) {
 	return false, 0, false
 }
 
-var out *vh.Out
+// ---- output: vlib reads case ids back as Coq nat numerals, so ids must stay small: a new sub-harness
+// output (own id space, own summary) is started every 6400 recorded cases (16 shards: one per core)
+var (
+	out      *vh.Out
+	outDir   string
+	outSeed  uint64
+	outCount int
+	ruleText string
+)
 
+// malformed: the call is outside the helper's ordinary domain (it must still behave as documented)
+func malformed(d *fnDef, a []Val) bool {
+	parts := strings.Split(d.shape, ",")
+	for i, v := range a {
+		if v.T == "N" {
+			return true
+		}
+		if i < len(parts) {
+			switch parts[i] {
+			case "n", "lo", "hi":
+				if v.Z <= 0 {
+					return true
+				}
+			case "idx":
+				for _, x := range v.L {
+					if x < 0 || int(x) >= len(a[0].L) {
+						return true
+					}
+				}
+			case "i":
+				if v.Z < 0 {
+					return true
+				}
+			}
+		}
+	}
+	return false
+}
+
+func rotate() {
+	if out != nil {
+		out.Close()
+	}
+	rule := ruleText
+	if outCount > 0 {
+		rule = "as coll000"
+	}
+	out = vh.NewOut(outDir, fmt.Sprintf("coll%03d", outCount), "From MV Require Import Lib.ListX C17.CollModel C17.CollRun.", "case", "mismatches", outSeed, rule)
+	outCount++
+}
+
+// vh keeps at most 200 monitor hits per output: report at most 3 per kind so that no kind is crowded out
+var kindSeen = map[string]int{}
+
+// record runs one call on the implementation and its monitors.  Cases that the Coq model evaluates, and cases
+// with a monitor hit, are written out; the others (monitors only, nothing found) are only counted.
 func record(d *fnDef, args []Val, coqWanted bool) {
 	c, res, aft, pan := execute(d, args)
-	v := monitor(d, &c, res, aft, pan)
+	var v []vh.Violation
+	for _, h := range monitor(d, &c, res, aft, pan) {
+		kindSeen[h.Kind]++
+		if kindSeen[h.Kind] <= 3 {
+			v = append(v, h)
+		}
+	}
+	coqWanted = coqWanted && (d.coq == nil || d.coq(c.Args))
+	if !coqWanted && len(v) == 0 {
+		out.Count("monitor_only_calls", d.name)
+		return
+	}
+	if out.N() >= 6400 {
+		rotate()
+	}
 	nt, n, dup := nontrivial(c.Args)
+	if malformed(d, c.Args) { // separate stream: nil containers, non-positive counts/sizes, positions that do not exist
+		out.Malformed()
+		out.Count("malformed", d.name)
+		nt = false
+	}
 	if n < 0 {
 		out.Count("first_container", "nil")
 	} else {
@@ -461,8 +534,8 @@ func record(d *fnDef, args []Val, coqWanted bool) {
 	}
 	out.Count("helper", d.name)
 	term := ""
-	if coqWanted && (d.coq == nil || d.coq(c.Args)) {
-		term = fmt.Sprintf("{| cid := %d; cfn := F%s; cargs := %s; cimpl := %s |}", out.N(), d.name, coqVals(c.Args), coqVals(c.Impl))
+	if coqWanted {
+		term = fmt.Sprintf("{| cid := %s; cfn := F%s; cargs := %s; cimpl := %s |}", vh.Z(int64(out.N())), d.name, coqVals(c.Args), coqVals(c.Impl))
 	}
 	out.Add(c, term, nt, v)
 }
@@ -491,11 +564,13 @@ func main() {
 		}
 		return
 	}
-	out = vh.NewOut(f.Out, "coll", "From MV Require Import Lib.ListX C17.CollModel C17.CollRun.", "case", "mismatches", f.Seed,
-		"every helper on: corpus; all slices over {1,2,3} up to length 5 (quick) / 6 (thorough) and nil; pairs of such slices up to length 3 / 4; "+
-			"all maps over keys {1,2,3} x values {1,2,3} and nil, pairs of them; lists of up to 3 slices/maps; random large, negative, all-equal and "+
-			"duplicate-heavy inputs; the monitors see every case, the Coq model a deterministic sample of the larger scopes in the quick tier; "+
-			"non-trivial = first container argument has >= 2 elements and (slices) a repeated element; distinct by hash of (helper, arguments, outputs)")
+	outDir, outSeed = f.Out, f.Seed
+	ruleText = "every helper on: corpus; all slices over {1,2,3} up to length 5 (quick) / 6 (thorough) and nil; pairs of such slices up to length 3 / 4; " +
+		"all maps over keys {1,2,3} x values {0,1,2} and nil, pairs of them; lists of up to 3 slices/maps; all dependency graphs on <= 2 / 3 items; " +
+		"random large, negative, all-equal and duplicate-heavy inputs; the monitors see every call, the Coq model a stratified sample of 70 (quick) / " +
+		"2500 (thorough) calls per helper plus all random ones (calls seen by the monitors only are counted under monitor_only_calls); " +
+		"non-trivial = first container argument has >= 2 elements and (slices) a repeated element; distinct by hash of (helper, arguments, outputs)"
+	rotate()
 	generate(f)
 	out.Close()
 }
